@@ -11,6 +11,7 @@ import (
 	"errors"
 	"fmt"
 	"io"
+	"math/rand"
 	"os"
 	"sort"
 	"strings"
@@ -78,7 +79,30 @@ type op struct {
 	Slash   bool   `json:"slash,omitempty"`
 	Data    []byte `json:"data,omitempty"`
 	N       int64  `json:"n,omitempty"`
+	Acts    []fdact `json:"acts,omitempty"` // "fd": what is done through the one write descriptor
 	Out     string `json:"out,omitempty"`
+}
+
+// one call on an open write descriptor
+type fdact struct {
+	K    string `json:"k"` // write writeat trunc seek flush
+	Data []byte `json:"data,omitempty"`
+	N    int64  `json:"n,omitempty"`   // offset (writeat, seek) or size (trunc)
+	Rel  bool   `json:"rel,omitempty"` // seek: io.SeekCurrent instead of io.SeekStart
+}
+
+func (a fdact) coq() string {
+	switch a.K {
+	case "write":
+		return vh.App("AWrite", vh.Bytes(a.Data))
+	case "writeat":
+		return vh.App("AWriteAt", vh.Bytes(a.Data), vh.Z(a.N))
+	case "trunc":
+		return vh.App("ATrunc", vh.Z(a.N))
+	case "seek":
+		return vh.App("ASeek", vh.Bool(a.Rel), vh.Z(a.N))
+	}
+	return "AFlush"
 }
 
 func (o *op) coq() string {
@@ -107,6 +131,8 @@ func (o *op) coq() string {
 		return vh.App("OList", o.P.coq())
 	case "read":
 		return vh.App("ORead", o.P.coq())
+	case "fd":
+		return vh.App("OFd", o.P.coq(), vh.Bool(o.Sync), vh.ListOf(o.Acts, func(a fdact) string { return a.coq() }))
 	}
 	panic("op kind " + o.Kind)
 }
@@ -142,6 +168,7 @@ type fsys struct {
 	lastPub cid.Cid
 	npub    int
 	lastErr error // the last non-nil error an MFS call returned
+	rng     *rand.Rand
 	growGap bool  // the last truncate grew a file to Size()==n but its DAG holds fewer bytes (finding C19-4)
 }
 
@@ -310,6 +337,167 @@ func (f *fsys) exec(o *op, st *vh.Stats) (string, error) {
 			}
 		}
 		return f.errOut(cerr), nil
+	case "fd":
+		n, err := mfs.Lookup(f.rt, o.P.str())
+		if err != nil {
+			return f.errOut(err), nil
+		}
+		fi, ok := n.(*mfs.File)
+		if !ok {
+			return "(RErr EOther)", nil
+		}
+		// shape of the node before: a leaf holding its data inline (finding C19-4 / C10-8 territory)
+		inlineLeaf, size0 := false, int64(0)
+		if nd, err := fi.GetNode(); err == nil {
+			if pn, ok := nd.(*dag.ProtoNode); ok && len(pn.Links()) == 0 {
+				if fsn, err := ft.FSNodeFromBytes(pn.Data()); err == nil && len(fsn.Data()) > 0 {
+					inlineLeaf = true
+				}
+			}
+			size0, _ = fi.Size()
+		}
+		fd, err := fi.Open(f.ctx, mfs.Flags{Write: true, Sync: o.Sync})
+		if err != nil {
+			return "", fmt.Errorf("open for write: %w", err)
+		}
+		generate := o.Acts == nil
+		nacts := len(o.Acts)
+		if generate {
+			nacts = 1 + f.rng.Intn(7)
+		}
+		var seen []string
+		grew := false
+		observe := func(what string) error { // File.node as the DAG holds it, after a Flush / the Close
+			nd, err := fi.GetNode()
+			if err != nil {
+				return err
+			}
+			sz, _ := fi.Size()
+			r, err := uio.NewDagReader(f.ctx, nd, f.dserv)
+			if err != nil {
+				return err
+			}
+			b, err := io.ReadAll(r)
+			if err != nil {
+				return err
+			}
+			if sz > size0 {
+				grew = true
+			}
+			if int64(len(b)) != sz {
+				if inlineLeaf && grew {
+					f.growGap = true
+				} else {
+					st.Violate(fmt.Sprintf("after %s the file records size %d but its DAG holds %d bytes", what, sz, len(b)), "", o)
+				}
+			}
+			seen = append(seen, vh.Bytes(b))
+			return nil
+		}
+		pos, afterFlush := int64(0), false
+		for k := 0; k < nacts; k++ {
+			var a fdact
+			if !generate {
+				a = o.Acts[k]
+			} else {
+				size, err := fd.Size()
+				if err != nil {
+					fd.Close()
+					return "", fmt.Errorf("fd.Size: %w", err)
+				}
+				x := f.rng.Intn(100)
+				if afterFlush && f.rng.Intn(2) == 0 {
+					x = 50 // a truncate right after a flush
+				}
+				switch {
+				case x < 28:
+					a = fdact{K: "write", Data: randBytes(f.rng, 1+f.rng.Intn(9))}
+				case x < 42:
+					a = fdact{K: "writeat", Data: randBytes(f.rng, 1+f.rng.Intn(6)), N: f.rng.Int63n(size + 3)}
+				case x < 68:
+					cands := []int64{0, size, size + 1, size + 4, size / 2}
+					if size > 0 {
+						cands = append(cands, size-1)
+					}
+					a = fdact{K: "trunc", N: cands[f.rng.Intn(len(cands))]}
+				case x < 78: // a seek inside the file (never beyond its end, never SeekEnd: C10's subject)
+					tgt := f.rng.Int63n(size + 1)
+					if f.rng.Intn(2) == 0 {
+						a = fdact{K: "seek", N: tgt}
+					} else {
+						a = fdact{K: "seek", Rel: true, N: tgt - pos}
+					}
+				default:
+					a = fdact{K: "flush"}
+				}
+				if size > 40 && a.K != "flush" { // keep files small
+					a = fdact{K: "trunc", N: 3}
+				}
+				o.Acts = append(o.Acts, a)
+			}
+			afterFlush = false
+			var aerr error
+			panicked := false
+			func() {
+				// an inline-data leaf that was grown is an inconsistent DAG (finding C19-4 / C10-8): a later
+				// Truncate of it can even hand a nil node to the DAG service and panic
+				defer func() {
+					if r := recover(); r != nil {
+						panicked = true
+						aerr = fmt.Errorf("panic: %v", r)
+					}
+				}()
+				switch a.K {
+				case "write":
+					_, aerr = fd.Write(a.Data)
+					pos += int64(len(a.Data))
+				case "writeat":
+					_, aerr = fd.WriteAt(a.Data, a.N)
+					pos = a.N + int64(len(a.Data))
+				case "trunc":
+					aerr = fd.Truncate(a.N)
+				case "seek":
+					wh := io.SeekStart
+					if a.Rel {
+						wh = io.SeekCurrent
+						pos += a.N
+					} else {
+						pos = a.N
+					}
+					_, aerr = fd.Seek(a.N, wh)
+				case "flush":
+					if aerr = fd.Flush(); aerr == nil {
+						aerr = observe("fd.Flush")
+					}
+					afterFlush = true
+				}
+			}()
+			if sz, err := fd.Size(); err == nil && sz > size0 {
+				grew = true
+			}
+			if aerr != nil && inlineLeaf && grew {
+				f.growGap = true // cut short as C19-4
+				st.Count("C19-4-as-error-or-panic")
+				if !panicked {
+					fd.Close()
+				}
+				return "", nil
+			}
+			if aerr != nil {
+				fd.Close()
+				return "", fmt.Errorf("descriptor act %s: %w", a.K, aerr)
+			}
+		}
+		if o.Acts == nil {
+			o.Acts = []fdact{}
+		}
+		if err := fd.Close(); err != nil {
+			return "", fmt.Errorf("close: %w", err)
+		}
+		if err := observe("Close"); err != nil {
+			return "", fmt.Errorf("reading File.node: %w", err)
+		}
+		return vh.App("RSess", vh.List(seen)), nil
 	case "mv":
 		dst := o.Q.str()
 		if o.Slash && len(o.Q) > 0 {
@@ -445,8 +633,9 @@ func (s *snode) all(prefix path, dirs, files *[]path) {
 }
 
 type gen struct {
-	e      *vh.Env
-	shadow *snode
+	e       *vh.Env
+	shadow  *snode
+	pending []*op // follow-ups of a descriptor session: what later reads and the flushed root show
 }
 
 func (g *gen) randPath(maxLen int) path {
@@ -486,6 +675,11 @@ func (g *gen) anyPath(dirs, files []path, wantFile, allowRoot bool) path {
 
 func (g *gen) next() *op {
 	r := g.e.Rng
+	if len(g.pending) > 0 {
+		o := g.pending[0]
+		g.pending = g.pending[1:]
+		return o
+	}
 	var dirs, files []path
 	g.shadow.all(nil, &dirs, &files)
 	freshIn := func() path { return g.pick(dirs).with(r.Intn(len(alphabet))) }
@@ -507,6 +701,16 @@ func (g *gen) next() *op {
 			o.P = g.randPath(3)
 		} else {
 			o.P = freshIn()
+		}
+	case x < 30 && len(files) > 0:
+		// a descriptor session (acts are drawn while it runs, from the descriptor's current size)
+		o.Kind, o.Sync = "fd", r.Intn(2) == 0
+		o.P = g.anyPath(dirs, files, true, false)
+		if r.Intn(3) != 0 {
+			g.pending = append(g.pending, mustOp("read", o.P))
+		}
+		if r.Intn(3) == 0 {
+			g.pending = append(g.pending, mustOp("flush", path{}))
 		}
 	case x < 36:
 		o.Kind, o.Sync = "write", r.Intn(2) == 0
@@ -701,6 +905,14 @@ func hasPrefix(q, p path) bool {
 	return true
 }
 
+func randBytes(r *rand.Rand, n int) []byte {
+	b := make([]byte, n)
+	for i := range b {
+		b[i] = byte(1 + r.Intn(250))
+	}
+	return b
+}
+
 func mustOp(kind string, p path) *op { return &op{Kind: kind, P: p, Path: p.str()} }
 
 // corpus: hand-written histories; the finding witnesses come first.
@@ -731,7 +943,28 @@ func corpus() [][]*op {
 		return o
 	}
 	root := path{}
+	fdop := func(p path, sync bool, acts ...fdact) *op {
+		o := mustOp("fd", p)
+		o.Sync, o.Acts = sync, acts
+		return o
+	}
+	W := func(s string) fdact { return fdact{K: "write", Data: []byte(s)} }
+	WA := func(s string, at int64) fdact { return fdact{K: "writeat", Data: []byte(s), N: at} }
+	T := func(n int64) fdact { return fdact{K: "trunc", N: n} }
+	S := func(rel bool, n int64) fdact { return fdact{K: "seek", Rel: rel, N: n} }
+	FL := fdact{K: "flush"}
 	return [][]*op{
+		// descriptor-level histories: write, flush, truncate, close without a further write (the truncate
+		// must reach File.node, the parent and the root), flush-then-write, truncate larger / smaller /
+		// equal, several flushes, seeks, non-sync and sync close; reads and the flushed root after each
+		{mk(path{x}, false), mustOp("create", path{x, f}), fdop(path{x, f}, false, W("hello world"), FL, T(5)), mustOp("read", path{x, f}),
+			mustOp("flush", root), fdop(path{x, f}, true, W("hello world"), FL, T(5)), mustOp("read", path{x, f}), mustOp("flush", root)},
+		{mustOp("create", path{f}), fdop(path{f}, true, W("abcdef"), FL, T(9), FL, T(9), FL, T(2), FL), mustOp("read", path{f}),
+			fdop(path{f}, false, FL, T(4)), mustOp("stat", path{f}), mustOp("flush", root),
+			fdop(path{f}, false, FL, W("XY"), FL, FL, WA("Q", 6), T(7)), mustOp("read", path{f}), mustOp("flush", root)},
+		{mk(path{a}, false), mustOp("create", path{a, gg}), fdop(path{a, gg}, false, W("0123456789"), S(false, 2), W("ab"), FL, S(true, 3), W("c"), FL, S(false, 0), T(6)),
+			mustOp("read", path{a, gg}), fdop(path{a, gg}, true), mustOp("read", path{a, gg}), fdop(path{a, gg}, false, T(0)), mustOp("read", path{a, gg}),
+			fdop(path{a}, true, W("no")), fdop(path{a, x}, true, FL), mustOp("flush", root)},
 		// C19-1: mv /a/x/f /b/x/f — parents compared by name
 		{mk(path{a, x}, true), mk(path{b, x}, true), mustOp("create", path{a, x, f}), wr(path{a, x, f}, "hi", false),
 			mv(path{a, x, f}, path{b, x, f}, false), mustOp("list", path{a, x}), mustOp("list", path{b, x}), mustOp("flush", root)},
@@ -774,8 +1007,8 @@ func corpus() [][]*op {
 
 func TestC19(t *testing.T) {
 	e := vh.Load(t)
-	st := vh.NewStats("operation sequences (corpus of 11 hand-written histories incl. the finding witnesses, then generated ones of " +
-		"length 4..30 over the names a,b,x,y,f,g at depth <= 3, aimed at existing paths by a shadow tree) run on a fresh MFS root in " +
+	st := vh.NewStats("operation sequences (corpus of 14 hand-written histories incl. the finding witnesses, then generated ones of " +
+		"length 4..30 over the names a,b,x,y,f,g at depth <= 3, aimed at existing paths by a shadow tree; besides whole-file writes, descriptor sessions of 1..7 Write/WriteAt/Truncate/Seek/Flush calls on one write descriptor, each followed by reads and root flushes) run on a fresh MFS root in " +
 		"4 configurations (CIDv0, CIDv1+raw leaves, 120-byte HAMT threshold, 64-byte HAMT threshold + 4-byte chunks + CIDv1; the corpus also with MaxLinks=2); every history ends with " +
 		"FlushPath(/) whose DAG is read back with the UnixFS readers; non-trivial = at least 6 operations, at least one successful mv " +
 		"and at least 3 successful structural operations; distinct by (config, ops)")
@@ -794,6 +1027,7 @@ func TestC19(t *testing.T) {
 		if err != nil {
 			t.Fatal(err)
 		}
+		f.rng = e.Rng
 		g := &gen{e: e, shadow: &snode{dir: true, kids: map[int]*snode{}}}
 		length := len(script)
 		if script == nil {
@@ -830,9 +1064,9 @@ func TestC19(t *testing.T) {
 			}
 			if f.growGap {
 				// finding C19-4 (cause in ipld/unixfs/mod): cut the history before this operation
-				o.Out = "grow-truncate: recorded size > bytes in the DAG"
+				o.Out = "growing an inline-data leaf: recorded size > bytes in the DAG"
 				hist = append(hist, o)
-				st.Violate("Truncate(n) growing a file whose node is a leaf with inline data (a raw-leaf file after chmod/touch) records size n but the DAG holds fewer bytes",
+				st.Violate("growing (Truncate, Write or WriteAt past the end) a file whose node is a leaf with inline data (a raw-leaf file after chmod/touch) records the new size but the DAG holds fewer bytes",
 					"C19-4", map[string]any{"config": cfg.Name, "ops": hist})
 				st.Count("cut-short-by-C19-4")
 				break
@@ -855,7 +1089,7 @@ func TestC19(t *testing.T) {
 				case "mv":
 					nmv++
 					nstruct++
-				case "mkdir", "create", "rm", "write", "trunc":
+				case "mkdir", "create", "rm", "write", "trunc", "fd":
 					nstruct++
 				}
 			}
